@@ -594,6 +594,7 @@ def _child_kinds(ctx, f, st, ch):
 def _arity(ctx):
     """Literals standing for the child count (16) and node length (17)."""
     probs = []
+    missing = []
     n = 0
     for q, checks in (
         (NODES + "get_node_type", [("cmp-len", 17)]),
@@ -612,6 +613,9 @@ def _arity(ctx):
                 for x_, y_ in ((cmp_.left, cmp_.comparators[0]), (cmp_.comparators[0], cmp_.left)):
                     if isinstance(x_, ast.Call) and ast.unparse(x_.func) == "len" and isinstance(y_, ast.Constant) and isinstance(y_.value, int) and y_.value > 2:
                         lits["cmp-len"].add(y_.value)
+            if isinstance(node, ast.Subscript) and isinstance(node.slice, ast.Slice) and node.slice.lower is None and isinstance(node.slice.upper, ast.UnaryOp) \
+                    and isinstance(node.slice.upper.op, ast.USub) and isinstance(node.slice.upper.operand, ast.Constant) and node.slice.upper.operand.value == 1:
+                lits["slice-upper"].add(16)  # node[:-1] of a 17-item branch: its 16 children
             if isinstance(node, ast.Subscript) and isinstance(node.slice, ast.Slice) and isinstance(node.slice.upper, ast.Constant) and node.slice.lower is None \
                     and isinstance(node.slice.upper.value, int) and node.slice.upper.value > 2:
                 lits["slice-upper"].add(node.slice.upper.value)
@@ -624,7 +628,12 @@ def _arity(ctx):
         for kind, want in checks:
             n += 1
             if want not in lits[kind]:
-                probs.append((f, "%s: expected the literal %d (%s), found %s" % (fkey(f), want, kind, sorted(lits[kind]) or "none")))
+                if lits[kind]:
+                    probs.append((f, "%s: expected the literal %d (%s), found %s" % (fkey(f), want, kind, sorted(lits[kind]))))
+                else:
+                    # no literal of that kind at all: the count is spelled some other way (node[:-1], a named
+                    # constant, unpacking) - nothing to compare
+                    missing.append((f, "%s: the literal %d (%s) is not spelled out" % (fkey(f), want, kind)))
         for kind, vals in lits.items():
             for v in vals:
                 if v not in (16, 17, 32):
@@ -632,6 +641,8 @@ def _arity(ctx):
     c = "branch-arity:hexary"
     if probs:
         ctx.bad(c, probs[0][0].loc(), probs[0][1], rule="SIB11", witness={"problems": [p[1] for p in probs]})
+    elif missing:
+        ctx.unsure(c, missing[0][0].loc(), missing[0][1], rule="SIB11")
     else:
         ctx.ok(c, "trie/", "16 children / 17 items at all %d literal sites" % n, rule="SIB11")
     # _set_kv_node builds 17-element branches on every path
@@ -726,7 +737,7 @@ def ts5(ctx, pid):
                 elif kind == "BRANCH":
                     if pl2 != eng.mk_bin("+", plen, C(1)):
                         probs.append("branch: proven length becomes `%s`, expected proven_len + 1" % tstr(pl2)[:50])
-                    if nxt != ("call", HEX + ".get_node", (("self",), ("sub", node, ("sub", unproven, C(0)))), ()):
+                    if nxt != ("call", HEX + ".get_node", (("self",), ("sub", node, eng.mk_sub(unproven, C(0)))), ()):
                         probs.append("branch: next node is `%s`, expected get_node(node[unproven_key[0]])" % tstr(nxt)[:60])
                     rows.setdefault(kind, set()).add("descend")
                 else:
@@ -826,7 +837,7 @@ def _ts5_gen_path(ctx, f, st, kind, acts, node, key, ck, ksw, probs, rows, whole
     elif kind == "BRANCH":
         if key_empty() is not False:
             probs.append("branch: the walk descends below a branch although the key is exhausted")
-        if nxt != ("call", HEX + ".get_node", (("self",), ("sub", node, ("sub", key, C(0)))), ()):
+        if nxt != ("call", HEX + ".get_node", (("self",), ("sub", node, eng.mk_sub(key, C(0)))), ()):
             probs.append("branch: next node is `%s`, expected get_node(node[key[0]])" % tstr(nxt)[:60])
         if k2 != ("slice", key, C(1), None):
             probs.append("branch: the key below is `%s`, expected key[1:]" % tstr(k2)[:50])
@@ -1170,7 +1181,10 @@ def recount(ctx, pid):
             shp = []
             for meth, arg in pushes:
                 if arg[0] == "slice":
-                    shp.append((meth, ("slice", None, arg[2], arg[3])))
+                    hi_ = arg[3]
+                    if k == "BRANCH" and hi_ == C(-1):
+                        hi_ = C(16)  # a branch has 17 items: all but the last are the 16 children
+                    shp.append((meth, ("slice", None, arg[2], hi_)))
                 elif arg[0] == "sub":
                     shp.append((meth, ("sub", None, arg[2])))
                 else:
